@@ -955,7 +955,9 @@ def run_env_stream(ctx, ask, root_ns, lctx, corpus):
                 return ("err", "already", msg[: -len(" was already defined.")]), (g, f, t)
             if "uses a reserved global name" in msg:
                 return ("err", "reserved", msg.split('"')[1]), (g, f, t)
-            raise
+            return ("err", "other", f"RuntimeError: {msg[:80]}"), (g, f, t)
+        except Exception as e:  # a changed constructor may stumble over a user object where it expects its own
+            return ("err", "other", f"{type(e).__name__}: {str(e)[:80]}"), (g, f, t)
         return ("ok", env), (g, f, t)
 
     def owners(coll, markers):
@@ -979,6 +981,10 @@ def run_env_stream(ctx, ask, root_ns, lctx, corpus):
             one = lambda k, x: ([x] if k == "g" else [], [x] if k == "f" else [], [x] if k == "t" else [])  # noqa: E731
             cases.append(("generator", False) + one(kind, n))
             cases.append(("builder", False) + one(kind, n))
+            if kind == "g" or not ctx.quick or (i + rot) % 3 == 0:
+                cases.append(("builder", True) + one(kind, n))   # the allow flag exists on the builder only
+            if kind == "g":
+                cases.append(("builder", True, [n], [n], [n]))
             if ctx.quick and kind != "g" and (i + rot) % 3:
                 continue
             for other in "gft".replace(kind, ""):
@@ -1038,6 +1044,20 @@ def run_env_stream(ctx, ask, root_ns, lctx, corpus):
                             ctx.fail({"kind": "silent-replacement", "collection": {"f": "filters", "t": "tests", "g": "globals"}[kind], "of": what},
                                      f"additional {'global' if kind == 'g' else 'filter' if kind == 'f' else 'test'} {k!r} replaced the built-in of that name without an error",
                                      {"stream": "env", "language": lang, "entry": entry, "allow": allow, "globals": ug, "filters": uf, "tests": ut, "replaced": k})
+            # property, REGARDLESS of the allow flag (it is documented for filters, tests and use-queries only): the reserved
+            # globals (RESERVED_GLOBAL_NAMESPACES / _NAMES, what the constructor installs as reserved) and the target language's
+            # globals keep their built-in value — the constructor raises or they are what they are without additions
+            if allow:
+                ref = ref_env if entry == "generator" else ref_builder_env
+                for k in sorted(reserved | set(lang_globals)):
+                    r, v = ref.globals.get(k), env.globals.get(k)
+                    if isinstance(v, Marker) or k not in env.globals or type(v) is not type(r) or \
+                            (isinstance(r, (str, int, float, bool, tuple, type)) and v != r):
+                        ctx.fail({"kind": "silent-replacement" if isinstance(v, Marker) else "builtin-value-changed", "collection": "globals",
+                                  "of": "reserved" if k in reserved else "language-global", "allow": True},
+                                 f"with the allow flag on, additional global {k!r} replaced the {'reserved' if k in reserved else 'language'} global (value now {v!r})",
+                                 {"stream": "env", "language": lang, "entry": entry, "allow": True, "globals": ug, "filters": uf, "tests": ut, "replaced": k})
+            if True:
                 # observation (not a replacement of a built-in): a user global the language globals overwrote
                 for n in ug:
                     if n in lang_globals and not isinstance(env.globals.get(n), Marker):
@@ -1109,18 +1129,38 @@ def replay(ctx, path):
             from nunavut.jinja import DSDLCodeGenerator
             lctx = LanguageContextBuilder(include_experimental_languages=True).set_target_language(rp.get("language", "c")).create()
             root_ns = nunavut.build_namespace_tree(pydsdl.read_namespace(str(ns_dir), []), str(ns_dir), str(ctx.scratch / "out"), lctx)
-            ref = DSDLCodeGenerator(root_ns)._env
+            from nunavut.jinja import CodeGenEnvironmentBuilder
+            from nunavut.jinja.environment import CodeGenEnvironment
+            from nunavut.jinja.loaders import DSDLTemplateLoader
+            builder = rp.get("entry") == "builder" or rp.get("allow")
+            allow = bool(rp.get("allow"))
+
+            def make(g, f, t):
+                if not builder:
+                    return DSDLCodeGenerator(root_ns, additional_globals=g, additional_filters=f, additional_tests=t)._env
+                b = CodeGenEnvironmentBuilder(DSDLTemplateLoader(package_name_for_templates="nunavut.lang.c"), lctx)
+                b.set_allow_filter_test_or_use_query_overwrite(allow)
+                for add, d in ((b.add_globals, g), (b.add_filters, f), (b.add_tests, t)):
+                    if d:
+                        add(**d)
+                return b.create()
+
+            ref = make(None, None, None)
             mk = lambda names: {n: Marker(i) for i, n in enumerate(names)} or None  # noqa: E731
             try:
-                env = DSDLCodeGenerator(root_ns, additional_globals=mk(rp["globals"]), additional_filters=mk(rp["filters"]),
-                                        additional_tests=mk(rp["tests"]))._env
-            except RuntimeError as e:
-                print(json.dumps({"raised": str(e)}))
+                env = make(mk(rp["globals"]), mk(rp["filters"]), mk(rp["tests"]))
+            except Exception as e:
+                print(json.dumps({"raised": f"{type(e).__name__}: {e}"}))
                 return 0
-            bad = [k for coll, rc in ((env.filters, ref.filters), (env.tests, ref.tests), (env.globals, ref.globals))
-                   for k, r in rc.items()
-                   if isinstance(coll.get(k), Marker) or type(coll.get(k)) is not type(r) or (isinstance(r, (str, int, float, bool, tuple, type)) and coll.get(k) != r)]
-            print(json.dumps({"constructed": True, "built_in_names_that_lost_their_built_in_value": bad}))
+            lost = lambda coll, rc, k: isinstance(coll.get(k), Marker) or type(coll.get(k)) is not type(rc[k]) or \
+                (isinstance(rc[k], (str, int, float, bool, tuple, type)) and coll.get(k) != rc[k])  # noqa: E731
+            if allow:  # the flag may replace filters, tests and default globals; never reserved or language globals
+                keep = set(CodeGenEnvironment.RESERVED_GLOBAL_NAMESPACES) | set(CodeGenEnvironment.RESERVED_GLOBAL_NAMES) | \
+                    set(lctx.get_target_language().get_globals())
+                bad = [k for k in sorted(keep) if lost(env.globals, ref.globals, k)]
+            else:
+                bad = [k for coll, rc in ((env.filters, ref.filters), (env.tests, ref.tests), (env.globals, ref.globals)) for k in rc if lost(coll, rc, k)]
+            print(json.dumps({"constructed": True, "allow": allow, "built_in_names_that_lost_their_built_in_value": bad}))
             return 1 if bad else 0
         print("nothing to replay (no failing input of a replayable stream in the file)")
         return 1
